@@ -416,6 +416,30 @@ func c18Payload(typ string, val int) []byte {
 	if err != nil {
 		panic(err)
 	}
+	if val == 3 {
+		// "every detail (type and bytes)": a peer written in another language may encode the same
+		// message differently - fields in another order, a field given twice.  Value 3 of every type
+		// is such a valid but non-canonical encoding: an empty occurrence of field 1 first, then the
+		// fields in reverse order.
+		var fields [][]byte
+		rest := b
+		for len(rest) > 0 {
+			_, _, n := protowire.ConsumeField(rest)
+			if n < 0 {
+				panic("verif: cannot split payload")
+			}
+			fields = append(fields, rest[:n])
+			rest = rest[n:]
+		}
+		nc := []byte{0x0a, 0x00}
+		if typ == "t4" {
+			nc = []byte{0x08, 0x00} // Duration.seconds is a varint
+		}
+		for i := len(fields) - 1; i >= 0; i-- {
+			nc = append(nc, fields[i]...)
+		}
+		return nc
+	}
 	return b
 }
 
